@@ -1,4 +1,4 @@
-import NoteSeqVerif.Model.C13
+import NoteSeqVerif.Model.C13Full
 /-! line-protocol driver for C13 (R := rne53).  MSEQ = `<composers: n tok*> <genres: n tok*> NS…`.
   shift <d> NS…                         -> ok NS… | err E
   stretch <f> NS…                       -> ok NS… | err E
@@ -10,6 +10,8 @@ import NoteSeqVerif.Model.C13
   interp <left> <right> <x> <n (xp fp)*>-> ok y
   repcat <mm> <D> <sd> MSEQ             -> ok <start> <end> MSEQ | err E
   expand <mm> <n (start end (ok NS…|err E))*> MSEQ -> ok MSEQ | err E    (extract_subsequence as a table)
+  repeat <mm> <D> <sd> MSEQ             -> ok MSEQ | err E          (whole function, extract = Model/C02)
+  expandfull <mm> MSEQ                  -> ok MSEQ | err E          (whole function, extract = Model/C02)
 `mm` is the digest of the merged unmodelled metadata, computed by the harness with protobuf itself. -/
 open NSV NSV.Wire NSV.C13
 
@@ -89,6 +91,10 @@ def step (line : String) : String :=
         | .error e => "err " ++ e.name
   | "expand" :: rest => run (do let mm ← P.str; let tab ← P.list pExtractEntry; let m ← pMSeq; pure (mm, tab, m)) rest
       fun (mm, tab, m) => showM (expandR rne53 (extractFun tab) (fun _ => mm) m)
+  | "repeat" :: rest => run (do let mm ← P.str; let d ← P.rat; let sd ← P.rat; let m ← pMSeq; pure (mm, d, sd, m)) rest
+      fun (mm, d, sd, m) => showM (repeatFullR rne53 (fun _ => mm) m d sd)
+  | "expandfull" :: rest => run (do let mm ← P.str; let m ← pMSeq; pure (mm, m)) rest
+      fun (mm, m) => showM (expandFullR rne53 (fun _ => mm) m)
   | _ => "bad-op"
 
 def main : IO Unit := loop step
